@@ -60,7 +60,8 @@ def random_system(rng, d, kind, probe=None, tshift=0.0, n_lind=None,
         def liou(t):
             return gen.lindblad_super(h0, g0, a0)
         sysm = oqupy.System(h0, g0, a0)
-        return dict(oq=sysm, liou=liou, td=False, d=d, h0=h0, nl=nl)
+        return dict(oq=sysm, liou=liou, td=False, d=d, h0=h0, nl=nl,
+                    g0=g0, a0=a0)
 
     def hfun(t):
         return h0 + np.cos(w * (t - tshift) + phi) * h1
